@@ -2,7 +2,9 @@
    Directives used: those of ExtrOcamlBasic only (bool, option, unit, prod, list, sumbool, sumor
    as OCaml types; andb/orb/negb/fst/snd inlined).  nat, N, Z, positive stay inductive. *)
 From Coq Require Import ExtrOcamlBasic.
-From Fences Require Import Base Graph GraphCheck.
+From Fences Require Import Base Graph GraphCheck Format OpenApi.
 Extraction Language OCaml.
 Extraction "model.ml" build items generate_paths execute exec V_pinned V_fixed aempty
-  wfb productiveb acyclicb.
+  wfb productiveb acyclicb
+  format_parameter_value decode shape_of strs
+  generate_all generate_one_valid step empty_cache.
